@@ -3,6 +3,7 @@ package main
 import (
 	"bytes"
 	"fmt"
+	"runtime"
 	"strings"
 
 	"github.com/synnaxlabs/cesium"
@@ -57,6 +58,29 @@ type stepResult struct {
 	Err       error
 	View      telem.TimeRange
 	Series    []telem.Series
+	Panic     string
+	PanicAt   string
+}
+
+// panicSite returns the innermost /repo frame of the current panic stack as
+// "file.go:func" (no line numbers or addresses, so that it can be part of a signature).
+func panicSite() string {
+	pcs := make([]uintptr, 64)
+	n := runtime.Callers(3, pcs)
+	frames := runtime.CallersFrames(pcs[:n])
+	for {
+		f, more := frames.Next()
+		if strings.Contains(f.File, "/cesium/") || strings.Contains(f.File, "/x/go/") {
+			fn := f.Function
+			if i := strings.LastIndex(fn, "/"); i >= 0 {
+				fn = fn[i+1:]
+			}
+			return fn
+		}
+		if !more {
+			return "unknown"
+		}
+	}
 }
 
 func (s stepResult) data() []byte {
@@ -68,7 +92,13 @@ func (s stepResult) data() []byte {
 }
 
 // run executes one command on a real unary iterator and snapshots its observable state.
-func runUnary(it *verifx.UnaryIterator, c cmd) stepResult {
+// A panic inside the iterator is captured (Panic != "") instead of killing the monitor.
+func runUnary(it *verifx.UnaryIterator, c cmd) (res stepResult) {
+	defer func() {
+		if p := recover(); p != nil {
+			res = stepResult{Panic: fmt.Sprint(p), PanicAt: panicSite()}
+		}
+	}()
 	var ok bool
 	switch c.Op {
 	case "first":
@@ -87,7 +117,7 @@ func runUnary(it *verifx.UnaryIterator, c cmd) stepResult {
 		it.SetBounds(telem.TimeRange{Start: telem.TimeStamp(c.A), End: telem.TimeStamp(c.B)})
 		ok = true
 	}
-	res := stepResult{OK: ok, Valid: it.Valid(), Err: it.Error(), View: it.View()}
+	res = stepResult{OK: ok, Valid: it.Valid(), Err: it.Error(), View: it.View()}
 	fr := it.Value()
 	for _, s := range fr.Get(it.Channel.Key).Series {
 		res.Series = append(res.Series, s)
@@ -119,6 +149,7 @@ func (w *walker) violate(sig, what string) {
 	w.h.Violation(w.layer, w.c, sig, what, map[string]any{
 		"channel": chName(w.key), "bounds": []string{tsStr(w.bounds[0]), tsStr(w.bounds[1])}, "auto_chunk": w.chunk,
 		"commands": w.trace, "layout": w.l.log, "model_ts": modelTS(w.l.model[w.key]), "domains": domainsStr(w.l, w.key),
+		"index_ts": modelTS(w.l.model[keyIdx]), "index_domains": domainsStr(w.l, keyIdx),
 	})
 }
 
@@ -149,6 +180,11 @@ func viewStr(v telem.TimeRange) string {
 // layoutClass summarises where the view sits, for signatures that stay stable across
 // seeds: how many domains the view touches and whether it straddles a gap.
 func (w *walker) check(c cmd, r stepResult) {
+	if r.Panic != "" {
+		w.trace = append(w.trace, fmt.Sprintf("%s -> PANIC %s", c, r.Panic))
+		w.violate(sig(c, "panic", r.PanicAt), fmt.Sprintf("%s panicked inside the iterator: %s (at %s)", c, r.Panic, r.PanicAt))
+		return
+	}
 	w.trace = append(w.trace, fmt.Sprintf("%s -> ok=%v view=%s n=%d err=%v", c, r.OK, viewStr(r.View), len(r.data()), r.Err != nil))
 	if len(w.trace) > 80 {
 		w.trace = append(w.trace[:1], w.trace[len(w.trace)-60:]...)
@@ -173,11 +209,11 @@ func (w *walker) check(c cmd, r stepResult) {
 	}
 	v := r.View
 	if v.End < v.Start {
-		w.violate("c10:inverted-view:"+dir+auto, fmt.Sprintf("%s reported view %s", c, viewStr(v)))
+		w.violate(sig(c, "inverted-view"), fmt.Sprintf("%s reported view %s", c, viewStr(v)))
 		return
 	}
 	if int64(v.Start) < w.bounds[0] || int64(v.End) > w.bounds[1] {
-		w.violate("c10:view-outside-bounds:"+dir+auto, fmt.Sprintf("%s reported view %s outside bounds [%s,%s)", c, viewStr(v), tsStr(w.bounds[0]), tsStr(w.bounds[1])))
+		w.violate(sig(c, "view-outside-bounds"), fmt.Sprintf("%s reported view %s outside bounds [%s,%s)", c, viewStr(v), tsStr(w.bounds[0]), tsStr(w.bounds[1])))
 		return
 	}
 	want := w.l.in(w.key, int64(v.Start), int64(v.End))
@@ -203,13 +239,20 @@ func (w *walker) check(c cmd, r stepResult) {
 			kind = "extra"
 		}
 		cls := w.classify(c, w.lastView, v)
-		w.violate("c10:"+cls+":"+dir+auto+":"+kind,
-			fmt.Sprintf("%s on %s: view %s holds stored samples at %v (%d bytes) but Value() has %d bytes in %d series %s", c, chName(w.key), viewStr(v), modelTS(want), len(concat(want)), len(got), len(r.Series), seriesStr(r.Series)))
+		if c.Span == -1 {
+			kind += ":" + w.originTag(c, w.lastView)
+		}
+		if r.Err != nil {
+			// the step gave up with an error while its reported view holds stored samples
+			cls = "step-error-loses-samples:" + errKind(r.Err)
+		}
+		w.violate(sig(c, cls, kind),
+			fmt.Sprintf("%s on %s: view %s holds stored samples at %v (%d bytes) but Value() has %d bytes in %d series %s; Error()=%v", c, chName(w.key), viewStr(v), modelTS(want), len(concat(want)), len(got), len(r.Series), seriesStr(r.Series), r.Err))
 		return
 	}
 	// Valid() must be false exactly when the view holds no stored sample (no error here).
 	if r.Valid != (len(want) > 0 && r.Err == nil) || r.OK != r.Valid {
-		w.violate("c10:valid-flag-wrong:"+dir+auto, fmt.Sprintf("%s: ok=%v Valid()=%v but view %s holds %d stored samples", c, r.OK, r.Valid, viewStr(v), len(want)))
+		w.violate(sig(c, "valid-flag-wrong"), fmt.Sprintf("%s: ok=%v Valid()=%v but view %s holds %d stored samples", c, r.OK, r.Valid, viewStr(v), len(want)))
 		return
 	}
 	// each series holds exactly the stored samples inside its own time range, and the
@@ -218,23 +261,23 @@ func (w *walker) check(c cmd, r stepResult) {
 	for i, s := range r.Series {
 		tr := s.TimeRange
 		if tr.Start < v.Start || tr.End > v.End || tr.End < tr.Start || (i > 0 && tr.Start < prevEnd) {
-			w.violate("c10:series-range-inconsistent:"+dir+auto, fmt.Sprintf("%s: series %d has time range %s in view %s (previous series ended at %d)", c, i, viewStr(tr), viewStr(v), prevEnd))
+			w.violate(sig(c, "series-range-inconsistent"), fmt.Sprintf("%s: series %d has time range %s in view %s (previous series ended at %d)", c, i, viewStr(tr), viewStr(v), prevEnd))
 			return
 		}
 		prevEnd = tr.End
 		if !bytes.Equal(s.Data, concat(w.l.in(w.key, int64(tr.Start), int64(tr.End)))) {
-			w.violate("c10:series-range-inconsistent:"+dir+auto, fmt.Sprintf("%s: series %d claims %s but holds other samples than the stored ones in that range", c, i, viewStr(tr)))
+			w.violate(sig(c, "series-range-inconsistent"), fmt.Sprintf("%s: series %d claims %s but holds other samples than the stored ones in that range", c, i, viewStr(tr)))
 			return
 		}
 	}
 	// consecutive steps in one direction: adjacent, non-overlapping views
 	if w.lastStep == dir {
 		if dir == "next" && v.Start != w.lastView.End {
-			w.violate("c10:views-not-adjacent:next"+auto, fmt.Sprintf("consecutive Next: previous view %s, this view %s", viewStr(w.lastView), viewStr(v)))
+			w.violate(sig(c, "views-not-adjacent"), fmt.Sprintf("consecutive Next: previous view %s, this view %s", viewStr(w.lastView), viewStr(v)))
 			return
 		}
 		if dir == "prev" && v.End != w.lastView.Start {
-			w.violate("c10:views-not-adjacent:prev"+auto, fmt.Sprintf("consecutive Prev: previous view %s, this view %s", viewStr(w.lastView), viewStr(v)))
+			w.violate(sig(c, "views-not-adjacent"), fmt.Sprintf("consecutive Prev: previous view %s, this view %s", viewStr(w.lastView), viewStr(v)))
 			return
 		}
 		w.h.Count("adjacent_pairs_checked", 1)
@@ -339,7 +382,7 @@ func (g gen) seek() cmd {
 func chunkSizes() []int64 { return []int64{1, 2, 3, 7, 20, 100000} }
 
 // walkRandom drives one random mixed sequence on a fresh unary iterator.
-func walkRandom(h *harness.H, layer string, c int, l *layout, k cesium.ChannelKey, r *prng.R) *walker {
+func walkRandom(h *harness.H, layer string, c int, l *layout, k cesium.ChannelKey, r *prng.R, fixedOnly, pairMode bool) *walker {
 	g := gen{r, l, k}
 	a, b := g.bounds()
 	chunk := prng.Pick(r, chunkSizes())
@@ -361,8 +404,13 @@ func walkRandom(h *harness.H, layer string, c int, l *layout, k cesium.ChannelKe
 		var cm cmd
 		p := r.Intn(100)
 		switch {
-		case !seeked || p < 18:
+		case !seeked || p < 18 || (pairMode && w.lastStep != ""):
+			// pairMode: every step is preceded by a seek, so the step starts from a freshly
+			// positioned domain cursor (isolates view/offset arithmetic from cursor history)
 			cm = g.seek()
+			if pairMode && r.Chance(2, 3) {
+				cm = prng.Pick(r, []cmd{{Op: "le", TS: g.ts()}, {Op: "ge", TS: g.ts()}})
+			}
 		case p < 22:
 			na, nb := g.bounds()
 			cm = cmd{Op: "bounds", A: na, B: nb}
@@ -374,6 +422,22 @@ func walkRandom(h *harness.H, layer string, c int, l *layout, k cesium.ChannelKe
 			cm = cmd{Op: "next", Span: -1}
 		default:
 			cm = cmd{Op: "prev", Span: -1}
+		}
+		if fixedOnly && cm.Span == -1 {
+			cm.Span = g.span()
+		}
+		if isStep(cm) && cm.Span != -1 && r.Chance(1, 4) {
+			// aim the far end of the new view exactly at a domain edge of this channel or
+			// of the index channel
+			if e := l.edges(); len(e) > 0 {
+				t := prng.Pick(r, e)
+				if cm.Op == "next" && t > int64(w.lastView.End) {
+					cm.Span = t - int64(w.lastView.End)
+				}
+				if cm.Op == "prev" && t < int64(w.lastView.Start) {
+					cm.Span = int64(w.lastView.Start) - t
+				}
+			}
 		}
 		if isStep(cm) && crashGuard(cm, w.lastView, w.bounds) {
 			h.Count("auto_steps_skipped_by_crash_guard", 1)
@@ -418,13 +482,9 @@ func traverse(h *harness.H, layer string, c int, l *layout, k cesium.ChannelKey,
 	}
 	res := runUnary(it, seek)
 	w.check(seek, res)
-	dirName := step.Op
-	if span == -1 {
-		dirName += ":auto"
-	}
 	if !res.OK {
 		if len(want) > 0 {
-			w.violate("c10:traversal-incomplete:"+dirName+":seek-found-nothing", fmt.Sprintf("%s returned false although %d stored samples lie in bounds [%d,%d)", seek, len(want), a, b))
+			w.violate(sig(step, "traversal-incomplete", "seek-found-nothing"), fmt.Sprintf("%s returned false although %d stored samples lie in bounds [%d,%d)", seek, len(want), a, b))
 		}
 		return w
 	}
@@ -463,7 +523,7 @@ func traverse(h *harness.H, layer string, c int, l *layout, k cesium.ChannelKey,
 		} else if len(got) > len(concat(want)) {
 			kind = "repeated-samples"
 		}
-		w.violate("c10:traversal-incomplete:"+dirName+":"+kind, fmt.Sprintf("%s; %s* over bounds [%d,%d) on %s returned %d bytes, stored samples %v are %d bytes", seek, step, a, b, chName(k), len(got), modelTS(want), len(concat(want))))
+		w.violate(sig(step, "traversal-incomplete", kind), fmt.Sprintf("%s; %s* over bounds [%d,%d) on %s returned %d bytes, stored samples %v are %d bytes", seek, step, a, b, chName(k), len(got), modelTS(want), len(concat(want))))
 	}
 	return w
 }
@@ -507,6 +567,28 @@ func (w *walker) classify(c cmd, prev, walkedView telem.TimeRange) string {
 		}
 		return "wrong-from-fresh-seek"
 	}
+	// The start point cannot be reached with one seek (it lies in a gap, at a domain end
+	// or outside the bounds). Fallback: a fresh iterator whose bounds are exactly the
+	// reported view reads that range in one step (SeekFirst; Next(max)).
+	if walkedView.End > walkedView.Start {
+		it, err := u.OpenIterator(verifx.UnaryIteratorConfig{Bounds: walkedView, AutoChunkSize: w.chunk})
+		if err == nil {
+			defer func() { _ = it.Close() }()
+			want := concat(w.l.in(w.key, int64(walkedView.Start), int64(walkedView.End)))
+			r0 := runUnary(it, cmd{Op: "first"})
+			if r0.Panic == "" && !r0.OK {
+				if len(want) == 0 {
+					return "stale-domain-cursor"
+				}
+				return "wrong-from-fresh-seek"
+			}
+			r := runUnary(it, cmd{Op: "next", Span: int64(telem.TimeSpanMax)})
+			if r.Panic == "" && r.Err == nil && bytes.Equal(r.data(), want) {
+				return "stale-domain-cursor"
+			}
+			return "wrong-from-fresh-seek"
+		}
+	}
 	return "value-differs-from-view:history-undetermined"
 }
 
@@ -527,4 +609,45 @@ func crashGuard(c cmd, v telem.TimeRange, bounds [2]int64) bool {
 		return int64(v.Start) == bounds[0]-1
 	}
 	return false
+}
+
+// originTag describes where an auto-span step starts from (the end of the previous view
+// for Next, its start for Prev) relative to the stored layout of the INDEX channel,
+// which is what the auto-span arithmetic consults.
+func (w *walker) originTag(c cmd, prev telem.TimeRange) string {
+	p := int64(prev.End)
+	if c.Op == "prev" {
+		p = int64(prev.Start)
+	}
+	if len(w.l.in(keyIdx, p, p+1)) == 1 {
+		return "from-sample"
+	}
+	ds, err := rawDomains(w.l.db, keyIdx)
+	if err != nil {
+		return "from-unknown"
+	}
+	for _, d := range ds {
+		if p == d.E {
+			return "from-domain-end"
+		}
+		if p >= d.S && p < d.E {
+			return "from-between-samples"
+		}
+	}
+	return "from-gap"
+}
+
+// sig builds a violation signature: c10:<fixed-span|auto-span>:<class>:<next|prev>[:detail...]
+func sig(c cmd, class string, detail ...string) string {
+	kind := "fixed-span"
+	if c.Span == -1 {
+		kind = "auto-span"
+	}
+	s := "c10:" + kind + ":" + class + ":" + c.Op
+	for _, d := range detail {
+		if d != "" {
+			s += ":" + d
+		}
+	}
+	return s
 }
